@@ -61,6 +61,10 @@ pub enum P {
     SpawnChain(S, S),
     /// async: req a; then the task fires its own command's abort handle and emits nothing
     QuietSelfAbort(S),
+    /// async: req a; then, in one poll, the task spawns a child (which would notify site m) and fires its
+    /// own command's abort handle; emits nothing. The child is still in the spawn queue when the command
+    /// is aborted: it must never run and the command must report done.   (request site, notify site)
+    SpawnThenSelfAbort(S, S),
     /// async: join!(req a, async { v = req b; spawn(notify n with v) }); event(a)   (a task that spawns in
     /// the very poll in which it may turn out to be abandoned)
     JoinSpawn(S, S, S),
@@ -163,7 +167,7 @@ impl P {
             | P::SelfWake(a, _) | P::Trigger(a, _) | P::SiblingAbort(a, _) | P::JoinHosted(a, _) => vec![a],
             P::ReqReq(a, b) | P::ReqStream(a, b) | P::StreamReq(a, b) | P::StreamStream(a, b)
             | P::Join(a, b) | P::Select(a, b) | P::SpawnJoin(a, b) | P::SpawnAfter(a, b) | P::SpawnEvent(a, b) | P::Burst(a, b) | P::Channel(a, b)
-            | P::Unordered(a, b) | P::JoinTwice(a, b) | P::MixedNotify(a, b) | P::AbortSpawned(a, b) | P::SelfAbort(a, b)
+            | P::Unordered(a, b) | P::JoinTwice(a, b) | P::MixedNotify(a, b) | P::AbortSpawned(a, b) | P::SelfAbort(a, b) | P::SpawnThenSelfAbort(a, b)
             | P::StreamUntil(a, b) | P::SpawnChain(a, b) | P::StreamHandOff(a, b) => vec![a, b],
             P::AbortChild(a, b, c) | P::IntoFuture(a, b, c) | P::JoinReq(a, b, c) | P::SelectJoinReq(a, b, c) | P::HandOff(a, b, c)
             | P::JoinSpawn(a, b, c) => vec![a, b, c],
